@@ -26,10 +26,10 @@ TECHNIQUE = 'Coq proof (rewriting 1-(1-x), commutativity, induction on fuel) + s
 DESIGN_REF = 'DESIGN.md section 6 C06'
 
 
-def swapped_membrane(m, sm, P1, P2, T, E1, E2):
+def swapped_membrane(m, sm, P1, P2, T, E1, E2, units='kg/(m2*h*kPa)'):
     return pv.Membrane(name='o', ideal_experiments=IdealExperiments(experiments=[
-        IdealExperiment(name='a', temperature=T, component=sm.first_component, permeance=pv.Permeance(P2), activation_energy=E2),
-        IdealExperiment(name='b', temperature=T, component=sm.second_component, permeance=pv.Permeance(P1), activation_energy=E1)]))
+        IdealExperiment(name='a', temperature=T, component=sm.first_component, permeance=pv.Permeance(P2, units), activation_energy=E2),
+        IdealExperiment(name='b', temperature=T, component=sm.second_component, permeance=pv.Permeance(P1, units), activation_energy=E1)]))
 
 
 def oracle(rng, tier):
@@ -70,12 +70,22 @@ def oracle(rng, tier):
             else:
                 P1, P2 = gens.loguniform(rng, 1e-3, 0.2), gens.loguniform(rng, 1e-4, 0.05)
                 E1, E2 = rng.uniform(0, 50000), rng.uniform(0, 50000)
-                mem = pvtools.simple_membrane(m, P1, P2, T=T, Ea1=E1, Ea2=E2)
-                smem = swapped_membrane(m, sm, P1, P2, T, E1, E2)
+                # the membrane's experiments, and permeances handed to the solver directly, may be stated in any supported unit
+                mu = rng.choice(['kg/(m2*h*kPa)', 'kg/(m2*h*kPa)', 'SI', 'GPU'])
+                M1, M2 = (pv.Permeance(P1).convert(mu, m.first_component).value, pv.Permeance(P2).convert(mu, m.second_component).value)
+                mem = pvtools.simple_membrane(m, M1, M2, T=T, Ea1=E1, Ea2=E2, units=mu)
+                smem = swapped_membrane(m, sm, M1, M2, T, E1, E2, units=mu)
+                case['membrane_units'] = mu
                 pa, pb = pv.Pervaporation(mem, m), pv.Pervaporation(smem, sm)
                 if what == 'flux':
-                    a = pa.calculate_partial_fluxes(T, c, 1e-7, Tp, pp, calculation_type=ct)
-                    b = pb.calculate_partial_fluxes(T, sc, 1e-7, Tp, pp, calculation_type=ct)
+                    ua = ub = {}
+                    if rng.random() < 0.5:
+                        su = rng.choice(['kg/(m2*h*kPa)', 'SI', 'GPU'])
+                        case['supplied_units'] = su
+                        ua = dict(first_component_permeance=pv.Permeance(P1, su), second_component_permeance=pv.Permeance(P2, su))
+                        ub = dict(first_component_permeance=pv.Permeance(P2, su), second_component_permeance=pv.Permeance(P1, su))
+                    a = pa.calculate_partial_fluxes(T, c, 1e-7, Tp, pp, calculation_type=ct, **ua)
+                    b = pb.calculate_partial_fluxes(T, sc, 1e-7, Tp, pp, calculation_type=ct, **ub)
                     ok = rel_close(a[0], b[1], 1e-6) and rel_close(a[1], b[0], 1e-6)
                     detail = 'fluxes %r, twin %r' % (a, b)
                 elif what == 'curve':
